@@ -200,10 +200,16 @@ def flagsOf (r : Isa.Result) (t : Compose.Result) : List Txt :=
       would compare equal to the marker value `111`); here `Marker.Opd.imm none`.  `get_reg_changes` on an
       entry with an operation and a float immediate is answered `unsupported` (`Isa.Val.other`);
     * a memory operand whose offset is an identifier (`[x1, :lo12:sym]`, `[x1, lab1]`) or was left as the
-      grammar's dictionary (float offset, shifted-immediate offset), or whose post-index is not a plain
-      number: `IdentifierOperand` has no `__eq__` (two such operands of different instructions are never
-      equal in Python), the key here is structural.  Only `is_memstore` compares memory operands of
-      different instructions;
+      grammar's dictionary (float offset, shifted-immediate offset): `IdentifierOperand` has no `__eq__` (two
+      such operands of different instructions are never equal in Python), the key here is structural.  Only
+      `is_memstore` compares memory operands of different instructions;
+    * a post-index that is not a plain number (`ld1 {v0.4s}, [x0], x1`: a register; a symbol): the roles, the
+      write-back and the register changes are faithful (`postValA64`: `Isa.Val.absent`, the base changes by an
+      unknown amount), but the parser model does not keep WHICH register it is (`ParseA64.PostIdx.other`), so
+      `[x0], x1` and `[x0], x2` have the same key here and are unequal in Python.  This shows only where two
+      such operands are compared (`is_memstore` with both as memory DESTINATIONS, the zero-idiom test); the
+      instructions that allow a register post-index (`ld1`…`ld4`, `st1`…`st4`, `ld1r`…) have no entry in
+      isa/aarch64.yml, their memory operand is a source by the default roles;
     * a directive parameter that is not a string (an identifier parsed as a nested group; `?` in the parser
       model): `none` here, as in `Marker.Dir`.
 -/
@@ -287,7 +293,8 @@ def moffA64 : Option ParseA64.MemOff → Isa.MOff
 def postValA64 : Option ParseA64.PostIdx → Isa.Val
   | none => .none
   | some (.imm v) => .int v
-  | some .other => .other            -- `post_indexed` is the grammar's dictionary: no integer `"value"`
+  | some .other => .absent           -- `post_indexed` is the grammar's dictionary (a register, `[x0], x1`, or a symbol):
+                                     --   no `"value"` key; `get_reg_changes` answers `{base: None}`
 
 def opndA64 (pos : Nat) (o : ParseA64.Operand) : Isa.Opnd :=
   { p := poperandA64 o
